@@ -341,7 +341,66 @@ return a and b and c
         hs += _triple(f"c01_type_single_{t}", f"v: {TV}", TPRE[:-1], f'{{"type": "{t}", "title": "T"}}', group="types", tier=T, twins=False)
     hs += _triple("c01_types_three", f"m: int, n: int, v: {TV}", TPRE, '{"type": ["integer", "string", "null"], "minimum": m, "maxLength": n}', group="types", tier=T, timeout=60)
     hs += _triple("c01_bool_schemas", f"b: bool, v: {TV}", TPRE[:-1], "b", group="types", twins=True)
+    hs += _pairwise()
     return hs
+
+
+# ---------------------------------------------------------------- systematic pairwise keyword interaction (thorough)
+# fragment name -> (keyword, value expression with holes {m} {n} {b}, value kinds it looks at)
+FRAGS = {
+    "minimum": ("minimum", "{m}", "N"), "maximum": ("maximum", "{m}", "N"),
+    "exclusiveMinimum": ("exclusiveMinimum", "{m}", "N"), "exclusiveMaximum": ("exclusiveMaximum", "{m}", "N"),
+    "multipleOf": ("multipleOf", "{n} + 1", "N"),
+    "minLength": ("minLength", "{n}", "S"), "maxLength": ("maxLength", "{n}", "S"), "pattern": ("pattern", "'^a'", "S"),
+    "items": ("items", "{{'minimum': {m}}}", "A"), "items_tuple": ("items", "[{{'type': 'integer'}}, {{'maximum': {m}}}]", "A"),
+    "items_false": ("items", "False", "A"),
+    "additionalItems": ("additionalItems", "{b}", "A"), "minItems": ("minItems", "{n}", "A"), "maxItems": ("maxItems", "{n}", "A"),
+    "uniqueItems": ("uniqueItems", "{b}", "A"), "contains": ("contains", "{{'const': {m}}}", "A"),
+    "properties": ("properties", "{{'a': {{'minimum': {m}}}, 'a b': {b}}}", "O"),
+    "patternProperties": ("patternProperties", "{{'^a': {{'maximum': {m}}}}}", "O"),
+    "additionalProperties": ("additionalProperties", "{b}", "O"),
+    "additionalProperties_schema": ("additionalProperties", "{{'multipleOf': 2}}", "O"),
+    "required": ("required", "['a']", "O"), "required_two": ("required", "['b', 'a b']", "O"),
+    "minProperties": ("minProperties", "{n}", "O"), "maxProperties": ("maxProperties", "{n}", "O"),
+    "propertyNames": ("propertyNames", "{{'maxLength': {n}}}", "O"),
+    "dependencies": ("dependencies", "{{'a': ['b'], 'b': {{'minProperties': {n}}}}}", "O"),
+    "const": ("const", "{m}", "NX"), "enum": ("enum", "[{m}, 'a', None, [], {{}}]", "NSX"),
+    "type_integer": ("type", "'integer'", "N"), "type_number": ("type", "'number'", "N"), "type_string": ("type", "'string'", "S"),
+    "type_array": ("type", "'array'", "A"), "type_object": ("type", "'object'", "O"), "type_list": ("type", "['integer', 'null', 'array']", "NXA"),
+    "anyOf": ("anyOf", "[{{'minimum': {m}}}, {{'type': 'string'}}]", "NS"), "oneOf": ("oneOf", "[{{'maximum': {m}}}, {{'type': 'integer'}}, False]", "N"),
+    "allOf": ("allOf", "[{{'maximum': {m}}}, True]", "N"), "not": ("not", "{{'const': {m}}}", "NX"),
+    "default": ("default", "3", "X"),
+}
+KIND_T = {"N": "int, bool", "S": "str", "A": "List[Union[int, bool]]", "O": "Dict[str, int]", "X": "None"}
+
+
+def _pairwise() -> List[H]:
+    """Every pair of keyword fragments with different keywords: one schema holding both, holes symbolic, value drawn from
+    the kinds either keyword looks at (plus int / None foils).  The hand-written rows above cover chosen interactions in
+    depth; this table covers ALL two-keyword interactions at a fixed depth."""
+    out: List[H] = []
+    names = list(FRAGS)
+    for i, f1 in enumerate(names):
+        for f2 in names[i + 1:]:
+            k1, e1, kd1 = FRAGS[f1]
+            k2, e2_, kd2 = FRAGS[f2]
+            if k1 == k2:
+                continue
+            kinds = [k for k in "NSAOX" if k in kd1 + kd2 + "NX"]
+            vt = "Union[" + ", ".join(KIND_T[k] for k in kinds) + "]"
+            pre = ["n1 >= 0", "n2 >= 0"]
+            if "S" in kinds:
+                pre.append("not isinstance(v, str) or len(v) <= 2")
+            if "A" in kinds:
+                pre.append("not isinstance(v, list) or len(v) <= 3")
+            if "O" in kinds:
+                pre.append("not isinstance(v, dict) or (len(v) <= 2 and all(k in ('a', 'b', 'a b', 'c') for k in v))")
+            title = "'title': 'T', " if "type_object" in (f1, f2) else ""
+            schema = "{%s%r: %s, %r: %s}" % (title, k1, e1.format(m="m1", n="n1", b="b1"), k2, e2_.format(m="m2", n="n2", b="b2"))
+            out += _triple(f"c01_pair_{f1}__{f2}", f"m1: int, n1: int, b1: bool, m2: int, n2: int, b2: bool, v: {vt}", pre, schema,
+                           tier="thorough", timeout=30, group="pair", twins=False, expect="any",
+                           covers=f"two-keyword interaction {k1} x {k2}")
+    return out
 
 
 def extra_checks(ctx):
